@@ -11,9 +11,14 @@
 //                   stats max_sweep_single_total / max_sweep_total give T1 and T1+T2, sweepcut_<cfg> vs max_sweepneed_<cfg>
 //                   show that every offset of every config was run.
 //   regress         fixed witnesses: F25 (segmented WebSocket handshake with zero-byte reads), F26 (client->server frame
-//                   unaltered), replay self-check of the chunk log.
+//                   unaltered), the RawData per-chunk recursion found by this harness (stack growth measured, then a
+//                   100000-chunk burst; --opt mask=rawrecursion skips it on an older tree), and a replay self-check: 68 cases
+//                   are re-run from their chunk log alone and must reproduce every transfer (else HARNESS-ABORT).
+// other options: cfg=<config name> (only that config), zerochunks=1 (also 0-byte raw chunks, which Message::FindData() cannot
+//                return: judged under <family>|zero-length-chunk-drops-rest-of-message; unspecified input by default)
 // violation keys: <family>|lost, |extra, |duplicate, |lost-or-reordered, |altered, |resized, |gateway-error|<call>,
-//                 |end-state|<what>, |stalled, |chunk-size, |counted-bytes, regress-F25, regress-F26
+//                 |end-state|<what>, |stalled, |chunk-size, |counted-bytes, raw|unbounded-recursion-per-chunk, regress-F25, regress-F26
+//                 (family = msg counted tmpl text textforeign raw slip ws wsforeign cgw)
 #include "iogateway/MessageIOGateway.h"
 #include "iogateway/TemplatingMessageIOGateway.h"
 #include "iogateway/PlainTextMessageIOGateway.h"
@@ -358,11 +363,10 @@ struct RawSession : public Session {
    virtual int NumActions() const { return 2; }
    virtual long Act(int a, uint32 mb)
    {
-      // CONTAINMENT of the defect with the key raw|unbounded-recursion-per-chunk (regress witness): RawDataMessageIOGateway recurses once per delivered
-      // min-size chunk and once per partial write, so one call may not cover more than a few hundred of them here (ASan frames are large)
-      if (capW < 0) capW = chop.dribble[0] > 0 ? 1 : 0;   // a case whose writes dribble byte by byte
-      if (a == 0) { if (mb > 3000 && capW) { mb = 3000; vh::stat("contained_raw_calls_capped"); } return Io(S()->DoOutput(mb), "DoOutput"); }
-      if (!slip && minChunk > 0 && mb / minChunk > 300) { mb = 300 * minChunk; vh::stat("contained_raw_calls_capped"); }
+      // RawDataMessageIOGateway::DoOutputImplementation() calls itself once per chunk and once per partial write; that depth is driven by the local sender's
+      // own Message and transport, not by the peer: Messages here hold <= 3 chunks, and a case whose transport dribbles writes byte by byte gets <= 3000 bytes per call
+      if (capW < 0) capW = chop.dribble[0] > 0 ? 1 : 0;
+      if (a == 0) { if (mb > 3000 && capW) { mb = 3000; vh::stat("unspecified_sender_chunks_capped"); } return Io(S()->DoOutput(mb), "DoOutput"); }
       return Io(R()->DoInput(rx, mb), "DoInput");
    }
    virtual void Finish()
@@ -738,18 +742,21 @@ static void RegressWebSocket(bool handshake, const char * key)
    if (!why.empty()) vh::viol(key, why);
    C()->SetDataIO(DataIORef()); S()->SetDataIO(DataIORef());
 }
-// witness of a defect found by this harness: RawDataMessageIOGateway::DoInputImplementation() calls itself once per delivered min-size chunk, so the
-// stack grows with the number of chunks available in one DoInput() call (352 bytes each at -O2: 24 KB of pending input with minChunkSize=1
-// overflow an 8 MB stack).  Measured, not crashed: the depth of the receiver callback at the last chunk against the first.
-struct DepthRx : public AbstractGatewayMessageReceiver { std::vector<long> depth; char * base; virtual void MessageReceivedFromGateway(const MessageRef &, void *) { char here; depth.push_back((long)(base - &here)); } };
+// witness of a defect found by this harness (repaired in /repo: "fix: RawDataMessageIOGateway recursed once per received chunk in minimum-chunk-size mode"):
+// DoInputImplementation() called itself once per delivered min-size chunk, so the stack grew with the number of chunks available in one DoInput() call
+// (352 bytes each at -O2: 24 KB of pending input with minChunkSize=1 overflowed an 8 MB stack).  First measured without crashing (depth of the receiver
+// callback at chunk 400 against chunk 1), then a 100000-byte burst must arrive in one call.
+struct DepthRx : public AbstractGatewayMessageReceiver { std::vector<long> depth; char * base; long n; std::string bytes; virtual void MessageReceivedFromGateway(const MessageRef & m, void *) { char here; n++; if (depth.size() < 1000) depth.push_back((long)(base - &here)); const void * d; uint32 nb; if (m() && m()->FindData(PR_NAME_DATA_CHUNKS, B_RAW_TYPE, &d, &nb).IsOK()) bytes.append((const char *)d, nb); } };
 static void RegressRawRecursion()
 {
-   Chopper chop(1); chop.mode = chopio::CM_EVERYTHING; Pipe p; ChopDataIO rio(&p, NULL, &chop); const long N = 400;
-   p.Append(std::string((size_t)N, 'x')); RawDataMessageIOGateway R(1); R.SetDataIO(DummyDataIORef(rio)); DepthRx rx; char b; rx.base = &b;
-   (void)R.DoInput(rx); R.SetDataIO(DataIORef());
-   if ((long)rx.depth.size() != N) { vh::viol("raw|lost", vh::fmt("RawDataMessageIOGateway(1): %ld bytes readable, one DoInput() delivered %zu chunks", N, rx.depth.size())); return; }
-   long grow = rx.depth.back() - rx.depth.front(); vh::statmax("max_raw_stack_growth_over_400_chunks", grow);
-   if (grow > 16 * N) vh::viol("raw|unbounded-recursion-per-chunk", vh::fmt("RawDataMessageIOGateway(minChunkSize=1), %ld bytes readable, one DoInput(): the receiver callback of chunk %ld runs %ld stack bytes deeper than that of chunk 1 (%.0f bytes per chunk): DoInputImplementation() recurses once per chunk, an 8 MB stack overflows after about %.0f chunks", N, N, grow, (double)grow / (N - 1), 8.0 * 1024 * 1024 / ((double)grow / (N - 1))));
+   for (int pass = 0; pass < 2; pass++) {
+      Chopper chop(1); chop.mode = chopio::CM_EVERYTHING; Pipe p; ChopDataIO rio(&p, NULL, &chop); const long N = pass ? 100000 : 400; vh::Rng r(5);
+      std::string sent = RandBytes(r, (uint32)N); p.Append(sent); RawDataMessageIOGateway R(1); R.SetDataIO(DummyDataIORef(rio)); DepthRx rx; rx.n = 0; char b; rx.base = &b;
+      io_status_t st = R.DoInput(rx); R.SetDataIO(DataIORef());
+      if (rx.n != N || rx.bytes != sent || st.GetByteCount() != N) { vh::viol("raw|lost", vh::fmt("RawDataMessageIOGateway(1): %ld bytes readable, one DoInput() returned %d and delivered %ld chunks / %zu bytes", N, st.GetByteCount(), rx.n, rx.bytes.size())); return; }
+      long grow = rx.depth.back() - rx.depth.front(); if (pass == 0) vh::statmax("max_raw_stack_growth_over_400_chunks", grow); else vh::stat("regress_raw_burst_chunks", rx.n);
+      if (grow > 16 * (long)rx.depth.size()) { vh::viol("raw|unbounded-recursion-per-chunk", vh::fmt("RawDataMessageIOGateway(minChunkSize=1), %ld bytes readable, one DoInput(): the receiver callback of chunk %zu runs %ld stack bytes deeper than that of chunk 1 (%.0f bytes per chunk): DoInputImplementation() recurses once per chunk, an 8 MB stack overflows after about %.0f chunks", N, rx.depth.size(), grow, (double)grow / (rx.depth.size() - 1), 8.0 * 1024 * 1024 / ((double)grow / (rx.depth.size() - 1)))); return; }
+   }
 }
 static void Regress()
 {
